@@ -27,7 +27,11 @@ def jobs(tier, seed, pool):
     def add(init, raw, edits_=None, fail_at=None, kind='sample', big=False):
         p = {'property': PROP, 'profile': 'resave', 'init': init, 'raw': raw, 'battery_salt': seed % 1000, 'timeout_s': 60 if big else 20}
         if Rng(seed, PROP, 'save-first', len(out)).chance(0.4):
-            p['save_first'] = True   # the first save precedes every query: read-only queries between saves must not change what is saved
+            p['save_first'] = True
+            re_ = Rng(seed, PROP, 'eye', len(out))
+            if re_.chance(0.25):
+                # (only here: a dynamic shape re-derives its eye data at every save, which the query comparison around the FIRST save would report)
+                edits_ = list(edits_ or []) + [{'op': 'SetEyeData', 'shape': re_.below(4), 'salt': re_.below(1 << 30)}, {'op': 'OffsetShape', 'shape': re_.below(4), 'salt': re_.below(1 << 30)}]   # the first save precedes every query: read-only queries between saves must not change what is saved
         if edits_:
             p['edits'] = edits_
         if fail_at is not None:
